@@ -171,7 +171,23 @@ def checkLanding (segs : List SegX) (q ans : String) : Except String (List Strin
         | .fin p, .fin _ => p ≤ fltMin
         | _, _ => true
       if screened then
-        if prop = total then .ok ["landing:screened"] else .error s!"landing: non-positive or non-finite arguments must give the total duration, got {ratToString prop}"
+        if prop ≠ total then .error s!"landing: non-positive or non-finite arguments must give the total duration, got {ratToString prop}"
+        else
+          -- a preferred descent of exactly 0 is a valid setting of the one-pass interface too (negative and non-finite
+          -- settings are refused there): it succeeds and reports an instant of the trajectory.  It need not be the total
+          -- duration: the calculator does not screen 0, and with a level stretch at the end every instant of it leaves a
+          -- remaining descent of 0 (the unchanged library reports its first instant).
+          match pd, thr with
+          | .fin p, .fin t0 =>
+            if p = 0 ∧ t0 ≥ 0 then
+              (if rc ≠ 0 then .error s!"landing: one-pass interface rc {rc} for a preferred descent of 0"
+               else match land with
+                 | .fin l =>
+                   if l < 0 ∨ l > total + timeSlack total then .error s!"landing: preferred descent 0: one-pass result {ratToString l} outside [0, {ratToString total}]"
+                   else .ok ["landing:screened", "landing:zero-descent-one-pass"]
+                 | _ => .error s!"landing: preferred descent 0: one-pass result is not finite (bits {landS})")
+            else .ok ["landing:screened"]
+          | _, _ => .ok ["landing:screened"]
       else
         match pd, thr with
         | .fin p, .fin t0 =>
